@@ -719,6 +719,10 @@ qtreetbl_obj_t qtreetbl_find_nearest(qtreetbl_t *tbl, const void *name,
     }
 
     qtreetbl_lock(tbl);
+    if (tbl->root != NULL) {
+        // the upward walks here and in getnext() must end at the root.
+        tbl->root->next = NULL;
+    }
     qtreetbl_obj_t *obj, *lastobj;
     for (obj = lastobj = tbl->root; obj != NULL;) {
         int cmp = tbl->compare(name, namesize, obj->name, obj->namesize);
